@@ -100,6 +100,7 @@ type tcase struct {
 	Cuts    []int          `json:"chunk_sizes,omitempty"` // chunk sizes; nil = whole
 	Errs    map[int]string `json:"errs,omitempty"`        // step index -> error accompanying that step
 	Zero    []int          `json:"zero_reads_before_step,omitempty"`
+	ZeroErr map[int]string `json:"error_without_bytes_before_step,omitempty"` // a read that returns (0, err), e.g. an expired read deadline; the stream goes on
 	Buf     int            `json:"reader_buf"` // >0 fixed, 0 = random per read (seeded by BufSeed)
 	BufSeed int64          `json:"buf_seed"`
 }
@@ -115,6 +116,9 @@ func (tc *tcase) steps() []step {
 	add := func(d []byte) {
 		if zero[idx] {
 			st = append(st, step{})
+		}
+		if e := tc.ZeroErr[idx]; e != "" {
+			st = append(st, step{Err: e})
 		}
 		st = append(st, step{Data: d, N: len(d), Err: tc.Errs[idx]})
 		idx++
@@ -570,6 +574,19 @@ func main() {
 		// one error somewhere (subsequent steps still delivered: e.g. a timeout the caller retries)
 		if len(cuts) > 0 && rng.Intn(2) == 0 {
 			tc.Errs[rng.Intn(len(cuts))] = []string{"timeout", "reset", "eof"}[rng.Intn(3)]
+		}
+		emit(tc)
+	}
+	// (7b) a read that fails WITHOUT bytes (expired read deadline - what net/http does to every HTTP/1.1
+	// connection between requests) at any point of the stream, also after the record is complete; the
+	// stream continues afterwards with up to 2 KiB of further records
+	for i := 0; i < run.Pick(6000, 80000); i++ {
+		L := rng.Intn(300)
+		s := record(versions[rng.Intn(5)], L, randBytes(rng, L), randBytes(rng, rng.Intn(2048)))
+		cuts := randCuts(rng, max(len(s), 1))
+		tc := &tcase{Family: "error-without-bytes", Stream: s, Cuts: cuts, Buf: 0, ZeroErr: map[int]string{}}
+		for k := 1 + rng.Intn(3); k > 0 && len(cuts) > 0; k-- {
+			tc.ZeroErr[rng.Intn(len(cuts)+1)] = []string{"timeout", "timeout", "reset"}[rng.Intn(3)]
 		}
 		emit(tc)
 	}
